@@ -13,7 +13,7 @@ import itertools
 import os
 import zlib
 
-from ..framework import Prop, mk, exc_family, ensure_repo_on_path
+from ..framework import Prop, mk, exc_family, ensure_repo_on_path, DriverError
 
 VERBOSE = bool(os.environ.get('C09_VERBOSE'))
 
@@ -112,6 +112,7 @@ class World:
         C = self.C
         self.names = []
         self.root_kinds = {}    # name -> class number of a named sequence (8 vin-like, 9 vout-like)
+        self.harness_err = None  # an AttributeError/ImportError/NameError raised in a harness frame: case unobservable
         self.mutable = (C.CMutableOutPoint, C.CMutableTxIn, C.CMutableTxOut, C.CMutableTransaction)
 
     # -- object graph navigation --
@@ -219,6 +220,17 @@ class World:
         C = self.C
         return C.CTxWitness(tuple(C.CTxInWitness(self.SC.CScriptWitness(tuple(st))) for st in w))
 
+    def err(self, e):
+        """the property names no exception class: what is compared is THAT the real code raised (audit 3)"""
+        # The harness uses only public names of the statement's classes.  An AttributeError in a harness frame is
+        # here an ordinary outcome (`tx.vin.append` on a tuple, `setattr` of an unknown name on a mutable object),
+        # so only ImportError / NameError count as "the harness could not reach something".
+        if isinstance(e, (ImportError, NameError)):
+            fam = exc_family(e)
+            if fam.startswith('harness:'):
+                self.harness_err = fam
+        return 'err'
+
     # -- one op; returns the out string; appends exactly one name --
     def step(self, op):
         new = None
@@ -226,10 +238,8 @@ class World:
             out, new = self.exec(op)
         except BadRef:
             out = 'badref'
-        except RecursionError:
-            out = 'err:py:RecursionError'
         except Exception as e:  # noqa: BLE001 - every escaping exception is an observation
-            out = 'err:' + exc_family(e)
+            out = self.err(e)
         if new is None:
             self.root_kinds.pop(len(self.names), None)
         self.names.append(new)
@@ -284,7 +294,7 @@ class World:
             o = self.resolve(p_target(w[1]))
             if self.is_seq(o) or type(o) in self.mutable:
                 return 'na', None
-            delattr(o, self.slots(o)[0])
+            delattr(o, self.attrs(o)[0])
             return 'done', None
         if k in ('setvin', 'setvout', 'addin', 'repin', 'rmin', 'addout', 'repout', 'rmout', 'setwit'):
             tx = self.root_tx(int(w[1]))
@@ -453,21 +463,29 @@ class World:
             if kk != 4:
                 return 'na', None
             item = C.CTxInWitness(SC.CScriptWitness(tuple(p_wit(w[-1])[0])))
-            if k == 'wlset':
-                o.vtxinwit[int(w[2])] = item
-            else:
-                o.vtxinwit.append(item)
-            return 'done', None
+            # the property requires the object to be unchanged afterwards (observed after the step), not a particular
+            # way of refusing: an exception, or an edit of a copy handed out by an accessor
+            try:
+                if k == 'wlset':
+                    o.vtxinwit[int(w[2])] = item
+                else:
+                    o.vtxinwit.append(item)
+            except Exception as e:  # noqa: BLE001
+                self.err(e)
+            return 'tried', None
         if k in ('stset', 'stapp'):     # D23: in-place edits of the stack inside a CTxInWitness's CScriptWitness
             o, kk = self.resolve_k(p_target(w[1]))
             if kk != 3:
                 return 'na', None
             b = bytes.fromhex(w[-1])
-            if k == 'stset':
-                o.scriptWitness.stack[int(w[2])] = b
-            else:
-                o.scriptWitness.stack.append(b)
-            return 'done', None
+            try:
+                if k == 'stset':
+                    o.scriptWitness.stack[int(w[2])] = b
+                else:
+                    o.scriptWitness.stack.append(b)
+            except Exception as e:  # noqa: BLE001
+                self.err(e)
+            return 'tried', None
         raise ValueError('unknown op ' + op)
 
     def verify(self, tx, in_idx, calls):
@@ -497,33 +515,45 @@ class World:
                 pass
 
     # -- observations --
-    @staticmethod
-    def res(f):
+    def res(self, f):
         try:
             return f()
-        except RecursionError:
-            return 'err:py:RecursionError'
         except Exception as e:  # noqa: BLE001
-            return 'err:' + exc_family(e)
+            return self.err(e)
 
     def eq(self, a, b):
         try:
             return 'B:1' if a == b else 'B:0'
         except Exception as e:  # noqa: BLE001
-            return 'B:err:' + exc_family(e)
+            return 'B:' + self.err(e)
 
-    def slots(self, o):
-        out = []
-        for cls in reversed(type(o).__mro__):
-            for s in getattr(cls, '__slots__', ()):
-                if not s.startswith('_') and s not in out:
-                    out.append(s)
-        return out
+    def attrs(self, o):
+        """the public attributes of the property's classes (by name: how instances store them is not observed)"""
+        C = self.C
+        if isinstance(o, C.CBlock):
+            return ['nVersion', 'hashPrevBlock', 'hashMerkleRoot', 'nTime', 'nBits', 'nNonce', 'vtx']
+        if isinstance(o, C.CBlockHeader):
+            return ['nVersion', 'hashPrevBlock', 'hashMerkleRoot', 'nTime', 'nBits', 'nNonce']
+        if isinstance(o, C.CTransaction):
+            return ['nVersion', 'vin', 'vout', 'nLockTime', 'wit']
+        if isinstance(o, C.CTxIn):
+            return ['prevout', 'scriptSig', 'nSequence']
+        if isinstance(o, C.CTxOut):
+            return ['nValue', 'scriptPubKey']
+        if isinstance(o, C.COutPoint):
+            return ['hash', 'n']
+        if isinstance(o, C.CTxInWitness):
+            return ['scriptWitness']
+        if isinstance(o, C.CTxWitness):
+            return ['vtxinwit']
+        return []
 
     def flag(self, o):
+        """M: instance of a mutable class; I: every attempt to assign or delete an attribute of the instance is
+        refused (ANY exception; that the object is unchanged is seen in the observations that follow); X: accepted"""
         if type(o) in self.mutable:
             return 'M'
-        for a in self.slots(o) + ['_cached_GetHash', '_cached__hash__', 'foo']:
+        for a in self.attrs(o) + ['foo']:
             try:
                 cur = getattr(o, a)
             except AttributeError:
@@ -532,10 +562,8 @@ class World:
                 try:
                     f()
                     return 'X'
-                except AttributeError:
-                    pass
                 except Exception:  # noqa: BLE001
-                    return 'X'
+                    pass
         return 'I'
 
     def walk(self, o, path, out):
@@ -600,7 +628,7 @@ class World:
                     try:
                         return hash(o)
                     except Exception as e:  # noqa: BLE001
-                        return 'err:' + exc_family(e)
+                        return self.err(e)
 
                 def f_txid():
                     return self.res(lambda: bytes(o.GetTxid())[:8].hex()) if isinstance(o, C.CTransaction) else '-'
@@ -642,6 +670,8 @@ def run_history(mods, hist, verbose=False):
         outs.append(o + '#' + (obs if verbose else cheap_digest(obs.encode())))
     obs = w.end_matrix()
     outs.append('end#' + (obs if verbose else cheap_digest(obs.encode())))
+    if w.harness_err:
+        outs.append('err:' + w.harness_err)      # the framework lists the case as unobservable
     return ';'.join(outs)
 
 
@@ -655,11 +685,14 @@ class Gen:
         self.ints = [p for p in pool if -2 ** 63 <= p <= 2 ** 64]
         self.roots = []      # per step: None | dict(kind, mut, nin, nout)
         self.ops = []
+        self.ood = False     # a value outside the ranges of the wire format (Basic/Tx.lean) was emitted: the history
+        #                      is outside the property's quantifier (kept for the model's explicit error branches)
 
     # values
     def h32(self, allow_bad=False):
         r = self.rng
         if allow_bad and r.random() < 0.08:
+            self.ood = True
             return bytes(r.randrange(256) for _ in range(r.choice((0, 31, 33))))
         if r.random() < 0.6:
             return r.choice(H32)
@@ -673,10 +706,13 @@ class Gen:
         if self.ints and r.random() < 0.2:
             v = r.choice(self.ints)
             if v >= 0 and (allow_bad or v <= 0xffffffff):
+                self.ood |= v > 0xffffffff
                 return v
         if r.random() < 0.3:
             return r.randrange(1 << 32)
-        return r.choice(c)
+        v = r.choice(c)
+        self.ood |= v > 0xffffffff
+        return v
 
     def script(self, parseable=False):
         """parseable=True: a script FindAndDelete can iterate and that holds no OP_CODESEPARATOR (the digest of
@@ -699,13 +735,17 @@ class Gen:
         c = [-1, 0, 1, 5000000000, 21000000 * 100000000, 2 ** 63 - 1, -2 ** 63]
         if allow_bad:
             c += [2 ** 63, -2 ** 63 - 1]
-        return r.choice(c) if r.random() < 0.7 else r.randrange(-2 ** 40, 2 ** 40)
+        v = r.choice(c) if r.random() < 0.7 else r.randrange(-2 ** 40, 2 ** 40)
+        self.ood |= not (-2 ** 63 <= v < 2 ** 63)
+        return v
 
     def version(self, allow_bad=False):
         c = [1, 2, 0, -1, 2 ** 31 - 1, -2 ** 31]
         if allow_bad:
             c += [2 ** 31, -2 ** 31 - 1]
-        return self.rng.choice(c)
+        v = self.rng.choice(c)
+        self.ood |= not (-2 ** 31 <= v < 2 ** 31)
+        return v
 
     def txin(self, allow_bad=False):
         return (self.h32(allow_bad), self.u32(allow_bad), self.script(), self.u32(allow_bad))
@@ -797,6 +837,7 @@ class Gen:
 
     def field_for(self, kind, allow_bad=True):
         r = self.rng
+        allow_bad = allow_bad and r.random() < 0.15     # out-of-range literals make the history out-of-domain
         if kind == 'tx':
             return r.choice((('nVersion', self.version(allow_bad)), ('nLockTime', self.u32(allow_bad))))
         if kind == 'txin':
@@ -1101,8 +1142,12 @@ def directed(rng, pool, which, cap=100):
         g.emit('appref %d.0 %d.0.0' % (b, a))
         g.roots[b]['nin'] += 1
         g.emit('repref %d.1 0 %d.1.1' % (a, a))
+        # the SAME input object twice in one list: a copy must hold two copies, sighash must treat them apart
+        g.emit('appref %d.0 %d.0.0' % (a, a))
+        g.roots[a]['nin'] += 1
+        g.emit('sighash %d %s %d %d' % (a, hx(g.script(True)), g.roots[a]['nin'] - 1, r.choice((1, 3, 0x81, 0x83))))
         c = g.emit('newtxfrom %d.0 %d.1 %d %d %s' % (a, b, g.u32(), g.version(), r.choice(('-', '%d.2' % a))),
-                   dict(kind='tx', mut=True, nin=nin, nout=1))
+                   dict(kind='tx', mut=True, nin=nin + 1, nout=1))
         d = g.emit('newin %d.0.0.0 %s %d' % (a, hx(g.script()), g.u32()), dict(kind='txin', mut=True))
         g.emit('appref %d.0 %d' % (c, d))
         g.roots[a]['nin'] += 1
@@ -1207,7 +1252,9 @@ def directed(rng, pool, which, cap=100):
         g.roots[b]['nin'] += 1
         g.emit('hash %d.2' % b)
         g.emit('txid %d' % b)
-    # then: every kind of mutation on every mutable root, interleaved with random ops
+    # then: every kind of mutation on every mutable root (round-robin over the roots, so that a bounded history
+    # still edits the copies as well as their sources)
+    plans = []
     for u, rt in list(enumerate(g.roots)):
         if rt is None or not rt.get('mut') or rt['kind'] in ('seqin', 'seqout'):
             continue
@@ -1227,12 +1274,14 @@ def directed(rng, pool, which, cap=100):
             muts = ['set %d n %d' % (u, g.u32()), 'set %d hash %s' % (u, hx(g.h32()))]
         else:
             muts = ['set %d nValue %d' % (u, g.value()), 'set %d scriptPubKey %s' % (u, hx(g.script()))]
-        for m in r.sample(muts, min(len(muts), r.choice((2, 4, len(muts))))):
-            if len(g.ops) < cap:      # quick tier: bounded history length (the cost of a history is quadratic in it)
-                g.emit(m)
+        plans.append(r.sample(muts, min(len(muts), r.choice((2, 4, len(muts))))))
+    while any(plans) and len(g.ops) < cap:
+        for pl in plans:
+            if pl and len(g.ops) < cap:
+                g.emit(pl.pop(0))
     for _ in range(r.randrange(4)):
         g.random_op()
-    return g.history()
+    return g
 
 
 TXA = dict(ver=1, lock=0, vin=[(H32[1], 0, b'\x51', 0xffffffff)], vout=[(5, b'\x76\xa9')], wit=[])
@@ -1295,14 +1344,19 @@ class C09(Prop):
                    'refinement of Model.HeapX to Spec.AliasSem is T2 only (refines_alias_spec UNPROVED; proved part: '
                    'refines_alias_spec_partial, histories without by-reference operations); on the extended catalogue '
                    '"a mutable copy is unaffected by later edits elsewhere" is copy_fresh_ext + T2',
-                   'the container-kind operations (mkseq / newctxfrom / setwitc) are T2 only']
+                   'the container-kind operations (mkseq / newctxfrom / setwitc) are T2 only',
+                   'exception classes are modelled (pyExc outcomes, compared between Model.HeapX and Spec.AliasSem '
+                   'inside the driver) but NOT compared with the real code: the statement names none']
     rule = ('histories: 13 directed aliasing templates (incl. every container kind for vin/vout/witness: list, tuple, '
             'subclasses, iterators)  with random values + random histories of 1..40 ops over the '
             'whole catalogue (boundary/mined field values incl. out-of-range ones); thorough: all histories of length '
             '<= 3 over a 40-op alphabet; after every step every live object is observed (observer order alternates so '
             'that == and hash() are taken before and after GetHash fills the cache); at the end of every history '
             '== / != / eq-hash coherence for ALL ordered pairs of the first 40 live objects, across classes; '
-            'non-trivial = at least one '
+            'compared: ok-vs-raised (never the exception class), values, == / != , hash() equality classes (never the '
+            'hash value), mutability flag = every public attribute refuses assignment and deletion with any exception; '
+            'in-place edits of vtxinwit / stack: only that the object is unchanged afterwards; histories with '
+            'out-of-range literals are tagged out-of-domain; non-trivial = at least one '
             'object created and one mutation/copy/sighash executed; distinct by history text')
 
     def setup(self):
@@ -1329,7 +1383,8 @@ class C09(Prop):
                 i += 1
                 if i % nshards != shard:
                     continue
-                yield mk('c09.run', directed(rng, pool, which, 100 if big else 36), tag='directed%d' % which)
+                g = directed(rng, pool, which, 100 if big else 36)
+                yield mk('c09.run', g.history(), tag='directed%d' % which, ood=g.ood)
         for rep in range(6000 if big else 480):
             i += 1
             if i % nshards != shard:
@@ -1341,7 +1396,7 @@ class C09(Prop):
                 n = rng.choice((1, 2, 3, 5, 8, 13, 20, 30)) if rng.random() < 0.5 else rng.randrange(1, 31)
             for _ in range(n):
                 g.random_op()
-            yield mk('c09.run', g.history(), tag='random')
+            yield mk('c09.run', g.history(), tag='random', ood=g.ood)
         if big:
             for n in (1, 2, 3):
                 for ops in itertools.product(ALPHABET, repeat=n):
@@ -1358,6 +1413,11 @@ class C09(Prop):
         return '\t'.join(['c09.runc'] + list(case['args']))
 
     def agree(self, case, impl_out, model_out):
+        if '@@diff@' in model_out:
+            # the heap model and Spec.AliasSem disagree inside the driver: an infrastructure error (exit 2), never a
+            # statement about /repo
+            raise DriverError('C09: Model.HeapX and Spec.AliasSem disagree at step %s of %r'
+                              % (model_out.split('@@diff@')[1], case['args'][0][:400]))
         if VERBOSE:
             return impl_out == model_out
         return impl_out + '@@same' == model_out
@@ -1385,8 +1445,6 @@ class C09(Prop):
                 yield mk('c09.run', ';'.join(cand), tag=c.get('tag', ''))
 
     def signature(self, c, io, mo):
-        if not mo.endswith('@@same') and '@@diff@' in mo and io == mo.split('@@')[0]:
-            return 'C09-model-vs-aliasspec'      # heap model and Spec.AliasSem disagree (not a defect of /repo)
         # D23: the first diverging step comes after an immutable-class object was given a caller's list / mutable
         # outpoint AND that part was edited in place (or the edit itself was accepted)
         ios, mos = io.split(';'), mo.split('@@')[0].split(';')
